@@ -31,7 +31,8 @@ def regenerate(repo, gen_dir):
     ch4 = gen_problem_grammar(repo, gen_dir)
     ch5 = gen_sat_tokens(repo, gen_dir)
     ch6 = gen_writer_formats(repo, gen_dir)
-    return ch or ch2 or ch3 or ch4 or ch5 or ch6
+    ch7 = gen_iccma_tokens(repo, gen_dir)
+    return ch or ch2 or ch3 or ch4 or ch5 or ch6 or ch7
 
 
 def parse_char(tok):
@@ -363,3 +364,31 @@ def gen_writer_formats(repo, gen_dir):
                "def statusYes : List Nat := %s\ndef statusNo : List Nat := %s\n\nend Crusta.Gen\n") % (
         lst(iccma_ext), lst(apx_ext), lst(apx_fw), lst(noext), lst(status), codes(yn.group(1)), codes(yn.group(2)))
     return write_if_changed(os.path.join(gen_dir, "WriterFormats.lean"), content)
+
+
+# ----------------------------------------------------------------------------- tokens of the ICCMA'23 reader (io/iccma23_reader.rs)
+
+def gen_iccma_tokens(repo, gen_dir):
+    src = open(os.path.join(repo, "src/io/iccma23_reader.rs")).read().split("#[cfg(test)]")[0]
+    c = re.search(r"if l\.starts_with\('(.)'\) \{\s*continue;", src)
+    k = re.search(r'read_preamble\(&words, "([^"]*)"\)', src)
+    pre = re.search(r"fn read_preamble\(.*?\n\}\n", src, re.S)
+    n = re.search(r"if words\.len\(\) != (\d+) \{", pre.group(0)) if pre else None
+    aw = re.search(r"if words\.len\(\) != (\d+) \{", src)
+    f = re.search(r'if words\[0\] != "([^"]*)" \{', src)
+    k2 = re.search(r"if words\[1\] != expected_kind \{", src)
+    lab = re.search(r"new_with_labels\(\((\d+)\.\.=n_args\)", src)
+    num = re.search(r"words\[2\]\.parse::<isize>\(\) \{\s*Ok\(n\) if n >= 0", src)
+    if not all([c, k, n, aw, f, k2, lab, num]) or "l.is_empty()" not in src or "split_whitespace()" not in src:
+        raise RuntimeError("the ICCMA'23 reader no longer has the shape the model mirrors")
+
+    def codes(t):
+        return "[" + ", ".join(str(ord(ch)) for ch in t) + "]"
+    content = ("/-! Regenerated from /repo/src/io/iccma23_reader.rs by tools/gen_from_source.py on every run. Do not edit. -/\n\n"
+               "namespace Crusta.Gen\n\n"
+               "/-- first character of a comment line -/\ndef iccmaComment : Nat := %d\n"
+               "/-- the preamble: number of words, first word, kind -/\n"
+               "def iccmaPreambleWords : Nat := %s\ndef iccmaAttackWords : Nat := %s\ndef iccmaFirstWord : List Nat := %s\ndef iccmaKind : List Nat := %s\n"
+               "/-- label of the first argument -/\ndef iccmaFirstLabel : Nat := %s\n\nend Crusta.Gen\n") % (
+        ord(c.group(1)), n.group(1), aw.group(1), codes(f.group(1)), codes(k.group(1)), lab.group(1))
+    return write_if_changed(os.path.join(gen_dir, "IccmaTokens.lean"), content)
